@@ -53,6 +53,10 @@ def build(variant):
     d = os.path.join(BUILD_ROOT, "%s-%s" % (variant, _hash(variant, cmd)))
     so = os.path.join(d, "engine_%s.so" % variant)
     if os.path.exists(so):
+        try:
+            os.utime(d, None)      # mark as recently used (protects it from pruning by concurrent runs)
+        except OSError:
+            pass
         return so
     os.makedirs(d, exist_ok=True)
     tmp = so + ".tmp%d" % os.getpid()
@@ -65,12 +69,14 @@ def build(variant):
 
 
 def _prune(variant, keep):
-    """Keep at most 3 cached builds per variant (disk is limited)."""
+    """Keep at most 8 cached builds per variant and never remove one used within the last 2 hours
+    (other check runs, e.g. against scratch trees, may be using it)."""
+    import time
     try:
         ds = [os.path.join(BUILD_ROOT, x) for x in os.listdir(BUILD_ROOT) if x.startswith(variant + "-")]
         ds.sort(key=lambda p: os.path.getmtime(p))
-        for p in ds[:-3]:
-            if p != keep:
+        for p in ds[:-8]:
+            if p != keep and time.time() - os.path.getmtime(p) > 7200:
                 for fn in os.listdir(p):
                     os.unlink(os.path.join(p, fn))
                 os.rmdir(p)
